@@ -262,7 +262,7 @@ def main():
         # not counted among the obligations of the proof claim (neither as obligations nor as discharged)
         def known_for(o):
             for k in known:
-                if k.get('status', 'open') == 'open' and prop in k['properties'] and k['unit'] == mod.NAME and k['harness'] == h.name and k['obligation'] in o['desc']:
+                if k.get('status', 'open') == 'open' and k['unit'] == mod.NAME and k['harness'] == h.name and k['obligation'] in o['desc']:
                     return k
             return None
         kf_fail = [(known_for(o), o) for o in rel if o['status'] != 'SUCCESS' and known_for(o)]
